@@ -92,7 +92,7 @@ Section Sel.
     select_pat U m path (l1 ++ l2) = select_pat U m path l2.
   Proof.
     induction l1 as [|q l1 IH]; intros H; [reflexivity|].
-    cbn [app select_pat].
+    cbn [List.app select_pat].
     assert (Hq := H q (or_introl eq_refl)).
     assert (IH' : select_pat U m path (l1 ++ l2) = select_pat U m path l2).
     { apply IH. intros q' Hin. apply H. right. assumption. }
@@ -247,7 +247,7 @@ Lemma pat_get_snoc t ps p :
   | None => if lz_eqb t (p_text p) then Some p else None
   end.
 Proof.
-  induction ps as [|q ps IH]; cbn [app pat_get]; [reflexivity|].
+  induction ps as [|q ps IH]; cbn [List.app pat_get]; [reflexivity|].
   destruct (lz_eqb t (p_text q)); [reflexivity|apply IH].
 Qed.
 
@@ -318,7 +318,7 @@ Qed.
 
 Lemma pat_mem_app t l1 l2 : pat_mem t (l1 ++ l2) = pat_mem t l1 || pat_mem t l2.
 Proof.
-  induction l1 as [|p l1 IH]; cbn [app pat_mem]; [reflexivity|].
+  induction l1 as [|p l1 IH]; cbn [List.app pat_mem]; [reflexivity|].
   rewrite IH, orb_assoc. reflexivity.
 Qed.
 
@@ -335,7 +335,7 @@ Lemma texts_unique_snoc ps p :
   texts_unique ps = true -> pat_mem (p_text p) ps = false ->
   texts_unique (ps ++ [p]) = true.
 Proof.
-  induction ps as [|q ps IH]; intros Hu Hm; cbn [app texts_unique pat_mem] in *.
+  induction ps as [|q ps IH]; intros Hu Hm; cbn [List.app texts_unique pat_mem] in *.
   - reflexivity.
   - apply andb_true_iff in Hu as [H1 H2]. apply orb_false_iff in Hm as [M1 M2].
     rewrite pat_mem_app. cbn [pat_mem]. rewrite orb_false_r.
